@@ -41,7 +41,8 @@ enum {
   OP_DFREE,          /* a = index into the list of released blocks: free it a second time (hardened builds) */
   OP_OVER,           /* a = live index: write one foreign byte just past the requested size, then free the block */
   OP_LINK,           /* a = index into the list of released blocks: overwrite its free-list link with a forged value */
-  OP_LAST
+  OP_HFILL,          /* a = heap slot, b = size: nine blocks (a full page of 8 plus one: the full page moves to the heap's full queue) */
+  OP_LAST      /* new codes go before this line only: replay files carry the numbers */
 };
 
 static void vf_op_str(vf_op_t op, char* buf, size_t n) {
@@ -70,6 +71,7 @@ static void vf_op_str(vf_op_t op, char* buf, size_t n) {
     case OP_EXPAND:       snprintf(buf, n, "expand(#%ld,usable+%ld)", op.a, op.b); break;
     case OP_FREE_SIZE:    snprintf(buf, n, "free_size(#%ld)", op.a); break;
     case OP_FREE_EVERY:   snprintf(buf, n, "free_every(%ld,%ld)", op.a, op.b); break;
+    case OP_HFILL:        snprintf(buf, n, "heap_fill(h%ld,%ld)", op.a, op.b); break;
     case OP_AHEAP_NEW:    snprintf(buf, n, "heap_new_in_arena"); break;
     case OP_THREAD_ARENA: snprintf(buf, n, "thread_arena_alloc(%ld)", op.a); break;
     case OP_THREAD_MANY:  snprintf(buf, n, "thread_alloc(%ld x%ld)", op.a, op.b); break;
@@ -135,7 +137,9 @@ static const profile_t profiles[] = {
   { .name = "P4zh", .zsizes = { 100 * KiB, 17 * MiB }, .nz = 2, .zasizes = { { 1 * MiB, 64 * MiB }, { 100 * KiB, 64 * KiB } }, .nza = 2,
     .msizes = { 17 * MiB, 100 * KiB }, .nm = 2, .rzsizes = { 200 * KiB, 18 * MiB }, .nrz = 2, .collect1 = 1, .maxlive = 3, .free_window = 3 },
   /* P4h: first-class heaps */
-  { .name = "P4h", .msizes = { 8 * KiB }, .nm = 1, .hsizes = { 8 * KiB, 48 }, .nh = 2, .heaps = 1, .hdestroy = 1, .setdef = 1, .collect1 = 1, .maxlive = 6, .free_window = 4 },
+  { .name = "P4h", .msizes = { 8 * KiB }, .nm = 1, .hsizes = { 8 * KiB, 48 }, .nh = 2, .heaps = 1, .hdestroy = 1, .setdef = 1, .collect1 = 1, .maxlive = 12, .free_window = 4 },
+  /* P4d: a deleted heap's descriptor is reused: blocks of the descriptor's size class next to a heap whose full page survives mi_heap_delete */
+  { .name = "P4d", .msizes = { sizeof(mi_heap_t) }, .nm = 1, .hsizes = { 8 * KiB }, .nh = 1, .heaps = 1, .maxlive = 14, .free_window = 14 },
   /* P5: aligned / interior pointers */
   { .name = "P5", .asizes = { { 48, 32 }, { 8 * KiB, 4096 }, { 100 * KiB, 64 * KiB }, { 1 * MiB, 64 * MiB } }, .na = 4, .msizes = { 48 }, .nm = 1,
     .realloc_al = 1, .rsizes = { 100, 9 * KiB }, .nr = 2, .free_variants = 1, .maxlive = 5, .free_window = 5 },
@@ -425,6 +429,11 @@ static int vf_apply(vf_op_t op) {
       else mi_free(b.p);
       return 0;
     }
+    case OP_HFILL: {
+      int h = (int)op.a; if (g_heaps[h] == NULL) return 0;
+      for (int k = 0; k < 9; k++) { void* p = mi_heap_malloc(g_heaps[h], (size_t)op.b); if (vf_model_alloc(p, (size_t)op.b, 0, 0, h, 0, "mi_heap_malloc[fill]") < 0) return 1; }
+      return 0;
+    }
     case OP_AHEAP_NEW: {
       if (g_heaps[1] != NULL || !g_arena) return 0;
       g_heaps[1] = mi_heap_new_in_arena(g_arena);
@@ -449,7 +458,7 @@ static int vf_apply(vf_op_t op) {
       return 0;
     }
     case OP_DFREE: {
-      int k = (int)op.a; if (k < 0 || k >= g_nrel) return 0;
+      int k = (int)op.a; if (k < 0 || k >= g_nrel || !g_rel[k].valid) return 0;     /* not (or no longer) a target: see vf_list_ops */
       uint64_t fp0 = vf_fingerprint();
       vf_err_count = 0;
       mi_free(g_rel[k].p);                     /* the second free of a block that is still free */
@@ -491,6 +500,10 @@ static int vf_apply(vf_op_t op) {
       return 0;
 #endif
       g_rel[k].linked = 1; g_pending_links++;
+      /* blocks of this page that were released earlier sit behind the forged link in the (LIFO) free lists: when the allocator
+         reaches the link it reports it and cuts the list there, so they are on no list any more and a second free of one of
+         them cannot be recognised by walking the lists (the mechanism the claim names): no longer double-free targets */
+      for (int j = 0; j < k; j++) if (g_rel[j].page == page) g_rel[j].valid = 0;
       VF_INC(nontrivial);
       return 0;
     }
@@ -686,6 +699,7 @@ static int vf_list_ops(vf_op_t* out, int max) {
     if (have_free_slot) PUSH(OP_HEAP_NEW, 0, 0);
     for (int h = 1; h < NHEAPS; h++) if (g_heaps[h] != NULL) {
       if (can_alloc) for (int i = 0; i < P->nh; i++) PUSH(OP_HMALLOC, h, P->hsizes[i]);
+      if (vf_nlive + 9 <= P->maxlive && !P->arena) PUSH(OP_HFILL, h, P->hsizes[0]);
       PUSH(OP_HEAP_DELETE, h, 0);
       if (P->hdestroy) PUSH(OP_HEAP_DESTROY, h, 0);
     }
@@ -746,6 +760,16 @@ static int build_start(const char* s) {
     mi_memid_t memid;
     void* blk = _mi_arena_alloc((size_t)62 * MI_ARENA_BLOCK_SIZE, false, false, aid, &memid);
     if (blk == NULL) { fprintf(stderr, "cannot pre-claim arena blocks\n"); return 2; }
+    return 0;
+  }
+  if (strcmp(s, "S6") == 0) {
+    /* the page of the heap descriptor's size class has an empty free list: the next block of that class (a new heap's
+       descriptor) is the last of its extension group, and once released it is the first one handed out again */
+    for (int k = 0; k < 64; k++) {
+      if (do_op(OP_MALLOC, (long)sizeof(mi_heap_t), 0)) return 1;
+      mi_page_t* pg = _mi_ptr_page(vf_live[vf_nlive - 1].p);
+      if (pg->free == NULL) { if (do_op(OP_FREE, vf_nlive - 1, 0)) return 1; break; }   /* hand the last one back: it becomes the descriptor */
+    }
     return 0;
   }
   if (s[0] == 'S' && s[1] == 'a') {
